@@ -2,6 +2,7 @@
 import datetime
 import logging
 import math
+from fractions import Fraction
 
 import numpy as np
 
@@ -34,25 +35,52 @@ def mk_trial(trial_id, config):
     return Trial(trial_id=trial_id, config=config, creation_time=datetime.datetime(2020, 1, 1))
 
 
-def expected_rung_levels(spec):
-    """Independent recomputation of the rung levels (exact integer arithmetic); None when the
-    reduction factor is not an integer (float power + rounding: the implementation's own levels are used)."""
+def round_half_even(x):
+    """Python's round() on exact rationals"""
+    f = math.floor(x)
+    d = x - f
+    if d < Fraction(1, 2):
+        return f
+    if d > Fraction(1, 2):
+        return f + 1
+    return f if f % 2 == 0 else f + 1
+
+
+def documented_rung_levels(spec):
+    """Independent recomputation of the rung levels from the documented formula, in exact rational arithmetic:
+    explicit list, or r_min + k * nu, or round(r_min * eta^k) for all k with r_min * eta^k < max_t (eta = exact value
+    of the given float; closed form, roundings do not compound); a final max_t is stripped.
+    Returns (levels, boundary): boundary = some r_min * eta^k is within 1e-9 (relative) of a rounding boundary x.5
+    or of max_t without being exactly on it, so that the binary64 evaluation may legitimately differ."""
     max_t = spec["max_t"]
+    boundary = False
     if spec.get("rung_levels") is not None:
-        lv = list(spec["rung_levels"])
+        lv = [int(x) for x in spec["rung_levels"]]
     elif spec.get("reduction_factor") is not None:
-        rf = spec["reduction_factor"]
-        if int(rf) != rf:
-            return None
-        lv, cur = [], spec["grace_period"]
-        while cur < max_t:
-            lv.append(cur)
-            cur *= int(rf)
+        rf = Fraction(spec["reduction_factor"])
+        lv, cur = [], Fraction(spec["grace_period"])
+        tol = Fraction(1, 10 ** 9)
+        while True:
+            if cur != max_t and abs(cur - max_t) <= tol * max_t:
+                boundary = True
+            if not cur < max_t:
+                break
+            d = cur - math.floor(cur) - Fraction(1, 2)
+            if d != 0 and abs(d) <= tol * cur:
+                boundary = True
+            lv.append(round_half_even(cur))
+            cur *= rf
     else:
         lv = list(range(spec["grace_period"], max_t, spec["rung_increment"]))
     if lv and lv[-1] == max_t:
         lv = lv[:-1]
-    return lv
+    return lv, boundary
+
+
+def expected_rung_levels(spec):
+    """documented rung levels, or None when the case is a rounding Boundary"""
+    lv, boundary = documented_rung_levels(spec)
+    return None if boundary else lv
 
 
 def hyperband_kwargs(spec):
@@ -79,7 +107,7 @@ def gen_rung_params(rng):
     p = dict(max_t=max_t)
     if style == "rf":
         p["grace_period"] = rng.choice([1, 1, 1, 2, 3])
-        p["reduction_factor"] = rng.choice([2, 3, 4, 2.5])
+        p["reduction_factor"] = rng.choice([2, 3, 4, 2.5, 2.2, 2.7, 3.5, 2, 3])
     elif style == "incr":
         p["grace_period"] = rng.choice([1, 2, 3])
         p["rung_increment"] = rng.choice([1, 2, 3, 5])
